@@ -650,12 +650,9 @@ pub mod tuple {
             }
         }
 
-        /// Serialized form as it is stored in a cell, and back.
+        /// The bytes as they are stored in a B+tree cell (what `Tuple::from_slice_unchecked` is fed on the read path).
         pub fn to_bytes(&self) -> Vec<u8> {
-            let mut buf = vec![0u8; self.tuple.serialized_size()];
-            let n = self.tuple.write_to(&mut buf).unwrap_or(0);
-            buf.truncate(n);
-            buf
+            self.tuple.effective_data().to_vec()
         }
 
         pub fn reload(&mut self) -> Result<(), String> {
